@@ -187,7 +187,7 @@ def curvilinear_centres(rng, ny, nx):
 
 def hole_pattern(rng, ny, nx, kind=None):
     holes = numpy.zeros((ny, nx), dtype=bool)
-    kind = kind or rng.choice(['none', 'none', 'corner', 'edge', 'interior', 'random', 'river'])
+    kind = kind or rng.choice(['none', 'none', 'corner', 'edge', 'interior', 'random', 'river', 'river_i'])
     if kind == 'corner':
         holes[rng.choice([0, ny - 1]), rng.choice([0, nx - 1])] = True
     elif kind == 'edge':
@@ -202,12 +202,18 @@ def hole_pattern(rng, ny, nx, kind=None):
         # leave a one-cell-wide river in row 1
         holes[0, :] = True
         holes[2, :] = True
+    elif kind == 'river_i' and nx > 2:
+        # a one-cell-wide channel running along the first dimension, open water at its mouth
+        holes[:, 0] = True
+        holes[:, 2] = True
+        if ny > 2:
+            holes[ny - 1, :] = False
     if holes.all():
         holes[0, 0] = False
     return holes, kind
 
 
-def cf2d(rng, *, ny=None, nx=None, bounds=None, holes=None, shoc_simple=False, as_coords=None):
+def cf2d(rng, *, ny=None, nx=None, bounds=None, holes=None, shoc_simple=False, as_coords=None, invalid=None):
     ny = ny or rng.randint(1, 5)
     nx = nx or rng.randint(1, 5)
     if bounds is None:
@@ -223,7 +229,7 @@ def cf2d(rng, *, ny=None, nx=None, bounds=None, holes=None, shoc_simple=False, a
         lat_attrs.pop('standard_name')
         lon_attrs.pop('standard_name')
     spec = {'ny': ny, 'nx': nx, 'ydim': ydim, 'xdim': xdim, 'hole_kind': hole_kind, 'as_coords': as_coords,
-            'bounds': None}
+            'bounds': None, 'lon_b': None, 'lat_b': None}
     variables = {}
     ax, ay, bx, by, ox, oy = params
     if bounds:
@@ -235,11 +241,22 @@ def cf2d(rng, *, ny=None, nx=None, bounds=None, holes=None, shoc_simple=False, a
             lat_b[:, :, c] = lat + (ay * di + by * dj) / 2 / F8
         lon_b[hole] = numpy.nan
         lat_b[hole] = numpy.nan
+        if invalid is None:
+            invalid = rng.random() < 0.25
+        if invalid:
+            # a self-intersecting (bow-tie) cell: two corners swapped
+            cand = [(j, i) for j in range(ny) for i in range(nx) if not hole[j, i]]
+            j, i = rng.choice(cand)
+            lon_b[j, i, [1, 2]] = lon_b[j, i, [2, 1]]
+            lat_b[j, i, [1, 2]] = lat_b[j, i, [2, 1]]
+            spec['invalid_cell'] = (j, i)
         variables['lon_bnds'] = ((ydim, xdim, 'nv'), lon_b)
         variables['lat_bnds'] = ((ydim, xdim, 'nv'), lat_b)
         lat_attrs['bounds'] = 'lat_bnds'
         lon_attrs['bounds'] = 'lon_bnds'
         spec['bounds'] = True
+        spec['lon_b'] = lon_b
+        spec['lat_b'] = lat_b
     lon = lon.copy()
     lat = lat.copy()
     lon[hole] = numpy.nan
@@ -263,7 +280,7 @@ def cf2d(rng, *, ny=None, nx=None, bounds=None, holes=None, shoc_simple=False, a
 # --------------------------------------------------------------------------------------------
 # Arakawa C / SHOC standard
 
-def arakawa(rng, *, nj=None, ni=None, holes=None, shoc=True):
+def arakawa(rng, *, nj=None, ni=None, holes=None, shoc=True, invalid=None):
     nj = nj or rng.randint(1, 5)
     ni = ni or rng.randint(1, 5)
     ax, ay = rng.choice([(8, 0), (8, 2), (6, -2)])
@@ -288,6 +305,13 @@ def arakawa(rng, *, nj=None, ni=None, holes=None, shoc=True):
         for i in range(ni):
             if not hole[j, i]:
                 node_missing[j:j + 2, i:i + 2] = False
+    if invalid is None:
+        invalid = rng.random() < 0.2
+    if invalid and ni >= 1:
+        # swap two neighbouring nodes: the cells around them become self-intersecting
+        j, i = rng.randrange(nj + 1), rng.randrange(ni)
+        xg[j, [i, i + 1]] = xg[j, [i + 1, i]]
+        yg[j, [i, i + 1]] = yg[j, [i + 1, i]]
     xg[node_missing] = numpy.nan
     yg[node_missing] = numpy.nan
     xc[hole] = numpy.nan
@@ -417,8 +441,19 @@ def derive_tables(rng, faces, shuffle_edges=True):
 
 
 def ugrid(rng, *, w=None, h=None, start_index=None, fill=None, transposed=None, supplied=None,
-          edge_dim_declared=None, coords_as_coords=None, face_coords=None, mesh=None, variety=True):
+          edge_dim_declared=None, coords_as_coords=None, face_coords=None, mesh=None, variety=True,
+          invalid=None):
     nodes, faces = mesh if mesh is not None else lattice_mesh(rng, w, h, variety=variety)
+    if invalid is None:
+        invalid = rng.random() < 0.15
+    if invalid:
+        quads = [k for k, f in enumerate(faces) if len(f) == 4]
+        if quads:
+            k = rng.choice(quads)
+            f = list(faces[k])
+            f[1], f[2] = f[2], f[1]
+            faces = list(faces)
+            faces[k] = f
     nn, nf = len(nodes), len(faces)
     maxn = max(len(f) for f in faces)
     uniform = all(len(f) == maxn for f in faces)
